@@ -24,6 +24,11 @@ async fn count_records(backend: &InMemorySessionStore) -> usize {
     use pavex_session::store::SessionStorageBackend;
     backend.delete_expired(None).await.unwrap()
 }
+fn incoming_id(cookie: &pavex::cookie::ResponseCookie<'static>) -> String {
+    let v: serde_json::Value = serde_json::from_str(cookie.value()).unwrap();
+    v["0"].as_str().unwrap().to_string()
+}
+
 #[tokio::test]
 async fn removed_server_key_stays_removed_on_next_request() {
     let store = SessionStore::new(InMemorySessionStore::new());
@@ -355,4 +360,120 @@ async fn bounded_search_over_histories() {
     }
     println!("bounded search: {n} histories explored, {} failing", failures.len());
     assert!(failures.is_empty(), "{} failing histories, first 5:\n{}", failures.len(), failures.iter().take(5).cloned().collect::<Vec<_>>().join("\n"));
+}
+
+// =====================================================================================================
+// End to end through the REAL cookie pipeline (biscotti processor, Set-Cookie / Cookie headers, IncomingSession::extract,
+// finalize_session): probes the assumed contracts — the serde wire round trip, `Processor::will_*` really protecting the
+// value, `extract` being the inverse of what `finalize` wrote — and the C12 protection matrix.
+// =====================================================================================================
+mod pipeline {
+    use super::*;
+    use pavex::Response;
+    use pavex::cookie::config::{CryptoAlgorithm, CryptoRule};
+    use pavex::cookie::{Key, Processor, ProcessorConfig, RequestCookies, ResponseCookies};
+    use pavex_session::{errors::FinalizeError, finalize_session};
+
+    pub fn processor(cookie_name: &str, algorithm: Option<CryptoAlgorithm>) -> Processor {
+        let mut config = ProcessorConfig::default();
+        if let Some(algorithm) = algorithm {
+            config.crypto_rules.push(CryptoRule { cookie_names: vec![cookie_name.to_owned()], algorithm, key: Key::generate(), fallbacks: vec![] });
+        }
+        config.into()
+    }
+    /// what a browser would send back: `name=value` of the Set-Cookie header
+    pub fn cookie_header(set_cookie: &str) -> String { set_cookie.split(';').next().unwrap().trim().to_string() }
+
+    #[tokio::test]
+    async fn state_survives_the_real_cookie_pipeline_and_is_protected_on_the_wire() {
+        for algorithm in [CryptoAlgorithm::Encryption, CryptoAlgorithm::Signing] {
+            let store = SessionStore::new(InMemorySessionStore::new());
+            let config = SessionConfig::default();
+            let p = processor(&config.cookie.name, Some(algorithm));
+            // request 1: server state always; client state only when the cookie will be encrypted
+            let mut s1 = Session::new(&store, &config, None);
+            s1.insert("srv", "server-secret-value").await.unwrap();
+            let with_client = matches!(algorithm, CryptoAlgorithm::Encryption);
+            if with_client { s1.client_mut().insert("cli", "client-secret-value").unwrap(); }
+            let mut jar = ResponseCookies::new();
+            finalize_session(Response::ok(), &mut jar, &p, s1).await.expect("protected cookie must be accepted");
+            let headers: Vec<String> = jar.header_values(&p).collect();
+            assert_eq!(headers.len(), 1, "exactly one session cookie");
+            assert!(!headers[0].contains("server-secret-value"), "server-side state must never travel in the cookie");
+            if with_client { assert!(!headers[0].contains("client-secret-value"), "will_encrypt promised encryption but the client state is readable: {}", headers[0]); }
+            // request 2: the browser presents it; the real extractor must recover id + client state
+            let h = cookie_header(&headers[0]);
+            let cookies = RequestCookies::parse_header(&h, &p).expect("our own cookie must parse");
+            let inc = IncomingSession::extract(&cookies, &config.cookie).expect("extract must invert what finalize wrote");
+            let s2 = Session::new(&store, &config, Some(inc));
+            assert_eq!(s2.get_raw("srv").await.unwrap().and_then(|v| v.as_str().map(str::to_owned)).as_deref(), Some("server-secret-value"));
+            assert_eq!(s2.client().get_raw("cli").and_then(|v| v.as_str()).is_some(), with_client);
+            // a tampered cookie is not accepted as a session
+            let tampered = format!("{}x", h);
+            let accepted = RequestCookies::parse_header(&tampered, &p).ok().and_then(|c| IncomingSession::extract(&c, &config.cookie));
+            assert!(accepted.is_none(), "a tampered {algorithm:?} cookie was accepted");
+        }
+    }
+
+    #[tokio::test]
+    async fn protection_matrix_of_the_middleware() {
+        // (processor, client state non-empty?) -> must the middleware accept?
+        for (alg, name) in [(None, "plain"), (Some(CryptoAlgorithm::Signing), "signed"), (Some(CryptoAlgorithm::Encryption), "encrypted")] {
+            for client_kind in ["empty", "inserted-now", "pre-existing-untouched", "pre-existing-then-cleared"] {
+                let store = SessionStore::new(InMemorySessionStore::new());
+                let config = SessionConfig::default();
+                let p = processor(&config.cookie.name, alg);
+                let inc = match client_kind {
+                    "pre-existing-untouched" | "pre-existing-then-cleared" => {
+                        let mut st = HashMap::new(); st.insert(std::borrow::Cow::Borrowed("email"), serde_json::Value::String("a@b.c".into()));
+                        Some(IncomingSession::from_parts(SessionId::random(), st))
+                    }
+                    _ => None,
+                };
+                let mut s = Session::new(&store, &config, inc);
+                s.insert("k", 1).await.unwrap();
+                if client_kind == "inserted-now" { s.client_mut().insert("email", "a@b.c").unwrap(); }
+                if client_kind == "pre-existing-then-cleared" { s.client_mut().clear(); }
+                let non_empty = !s.client().is_empty();
+                let mut jar = ResponseCookies::new();
+                let r = finalize_session(Response::ok(), &mut jar, &p, s).await;
+                let attached = jar.iter().count();
+                let tag = format!("processor={name} client={client_kind}");
+                match (&r, name, non_empty) {
+                    (Ok(_), "encrypted", _) | (Ok(_), "signed", false) => assert_eq!(attached, 1, "{tag}"),
+                    (Ok(_), _, _) => panic!("{tag}: an unprotected (or merely signed, with client state) session cookie was attached"),
+                    (Err(FinalizeError::EncryptionRequired { .. }), "signed", true) | (Err(FinalizeError::EncryptionRequired { .. }), "plain", true)
+                    | (Err(FinalizeError::CryptoRequired { .. }), "plain", false) => assert_eq!(attached, 0, "{tag}: the request failed but a cookie was set"),
+                    (Err(e), _, _) => panic!("{tag}: unexpected error {e:?}"),
+                }
+            }
+        }
+    }
+
+    #[tokio::test]
+    async fn cookie_attributes_follow_the_configuration_and_debug_never_shows_the_id() {
+        use pavex::cookie::SameSite;
+        use pavex_session::config::SessionCookieKind;
+        for domain in [None, Some("example.com")] { for path in [None, Some("/app")] { for secure in [true, false] { for http_only in [true, false] {
+        for same_site in [None, Some(SameSite::Strict)] { for kind in [SessionCookieKind::Persistent, SessionCookieKind::Session] {
+            let store = SessionStore::new(InMemorySessionStore::new());
+            let mut config = SessionConfig::default();
+            config.cookie.name = "sid".into(); config.cookie.domain = domain.map(Into::into); config.cookie.path = path.map(Into::into);
+            config.cookie.secure = secure; config.cookie.http_only = http_only; config.cookie.same_site = same_site; config.cookie.kind = kind.clone();
+            let mut s = Session::new(&store, &config, None);
+            s.insert("k", 1).await.unwrap();
+            let c = s.finalize().await.unwrap().expect("cookie");
+            let id = incoming_id(&c);
+            assert_eq!((c.name(), c.domain(), c.path(), c.same_site()), ("sid", domain, path, same_site));
+            assert_eq!((c.secure().unwrap_or(false), c.http_only().unwrap_or(false), c.max_age().is_some()), (secure, http_only, kind == SessionCookieKind::Persistent));
+            // the removal cookie targets the same (name, domain, path); Debug never shows the id in any state
+            let mut s2 = Session::new(&store, &config, Some(incoming(&c)));
+            let shows = |s: &Session<'_>| { let d = format!("{s:?}"); d.contains(&id) || d.contains(&id.replace('-', "")) };
+            assert!(!shows(&s2)); let _ = s2.get_raw("k").await.unwrap(); assert!(!shows(&s2));
+            s2.cycle_id(); assert!(!shows(&s2)); s2.delete(); assert!(!shows(&s2)); s2.invalidate(); assert!(!shows(&s2));
+            let r = s2.finalize().await.unwrap().expect("removal cookie");
+            assert!(!shows(&s2));
+            assert_eq!((r.name(), r.domain(), r.path()), ("sid", domain, path), "removal cookie scope");
+        }}}}}}
+    }
 }
